@@ -103,8 +103,8 @@ def make_frame(case):
 _sampled = []
 _orig_sampler = getattr(cr, 'prior_combinations_sample', None)
 if _orig_sampler is not None:
-    def _wrapped(combinations, args):
-        out = _orig_sampler(combinations, args)
+    def _wrapped(combinations, args, *rest, **kw):
+        out = _orig_sampler(combinations, args, *rest, **kw)
         try:
             _sampled.append([list(t) for t in out])
         except Exception:
